@@ -46,6 +46,8 @@ type SpecCtx struct {
 	block  *ssa.BasicBlock
 	inTrig bool
 	globalClause bool
+	inOld  int
+	bound  map[string]bool // names bound by quantifiers / predicate parameters (never looked up as program variables)
 }
 
 func (c *SpecCtx) with(vars map[string]SV) *SpecCtx {
@@ -54,8 +56,13 @@ func (c *SpecCtx) with(vars map[string]SV) *SpecCtx {
 	for k, v := range c.vars {
 		n.vars[k] = v
 	}
+	n.bound = map[string]bool{}
+	for k := range c.bound {
+		n.bound[k] = true
+	}
 	for k, v := range vars {
 		n.vars[k] = v
+		n.bound[k] = true
 	}
 	return &n
 }
@@ -173,6 +180,7 @@ func (c *SpecCtx) eval(n *Node) SV {
 		}
 		c2 := *c
 		c2.cur = c.old
+		c2.inOld = c.inOld + 1
 		return c2.eval(n.Args[0])
 	case "unop":
 		x := c.eval(n.Args[0])
@@ -250,6 +258,15 @@ func (c *SpecCtx) eval(n *Node) SV {
 }
 
 func (c *SpecCtx) ident(name string) SV {
+	if c.lookup != nil && c.inOld == 0 {
+		// inside the body (loop invariants, clauses at a return): a name denotes the variable's current value,
+		// also for parameters that the function spilled to memory and reassigns (e.g. input.started)
+		if _, bound := c.bound[name]; !bound {
+			if v, ok := c.lookup(name); ok {
+				return v
+			}
+		}
+	}
 	if v, ok := c.vars[name]; ok {
 		return v
 	}
@@ -444,6 +461,9 @@ func (c *SpecCtx) eqSV(a, b SV) string {
 		a, b = b, a
 	}
 	if b.IsNil {
+		if a.LV != nil && a.T == "INTERIOR" {
+			return "false" // the address of a field or element is never nil
+		}
 		switch a.Sort {
 		case "Int":
 			return eq(a.T, "0")
@@ -662,7 +682,8 @@ func (c *SpecCtx) call(n *Node) SV {
 		return SV{Seq: &seqView{arr: sel(c.cur.H(h), app("s_arr", x.T)), lo: app("s_off", x.T), hi: app("+", app("s_off", x.T), app("s_len", x.T)), es: e.sortOf(st.Elem())}}
 	case "fresh":
 		x := c.eval(n.Args[0])
-		return boolSV(app(">=", c.refOf(x), c.old.alloc))
+		r := c.refOf(x)
+		return boolSV(and(app(">=", r, c.old.alloc), app("<", r, c.cur.alloc)))
 	case "allocated":
 		x := c.eval(n.Args[0])
 		return boolSV(app("<", c.refOf(x), c.cur.alloc))
@@ -802,6 +823,9 @@ func (c *SpecCtx) call(n *Node) SV {
 			return boolSV("true")
 		}
 		return boolSV(eq(c.cur.H(h), c.old.H(h)))
+	}
+	if gname, ok := c.f.ghosts[n.Name]; ok {
+		return intSV(app(gname, c.eval(n.Args[0]).T))
 	}
 	// raw SMT function declared with "smt" lines or spec functions
 	if sf, ok := e.specs.specFuns[n.Name]; ok {
